@@ -17,7 +17,7 @@
 //! vs the TokenStringExt methods on real Document token lists and on synthetic kind sequences (thorough: every
 //! sequence of <= 6 kind classes over 7), and extracted LintGroup::lint (cache carried over) vs a real
 //! LintGroup with two transparent rules.
-use harper_core::linting::{Lint, LintGroup, Linter, PatternLinter};
+use harper_core::linting::{Lint, LintGroup, Linter, LongSentences, PatternLinter};
 use harper_core::parsers::{Parser, PlainEnglish};
 use harper_core::patterns::{Pattern, SequencePattern};
 use harper_core::{Dialect, Document, FstDictionary, Punctuation, Quote, Span, Token, TokenKind, TokenStringExt};
@@ -111,6 +111,50 @@ fn iter_case(rep: &mut Report, toks: &[Token]) {
         Ok(s) => rep.case(&line, &s),
         Err(_) => rep.case(&line, "PANIC"),
     }
+}
+
+/// One correspondence case for the modelled rule body (ParaSplit.long_sentences, extracted as run_long):
+/// the spans LongSentences reports on this document.
+fn long_case(rep: &mut Report, doc: &Document) {
+    let mut line = String::from("R");
+    for t in doc.get_tokens() {
+        line.push_str(&format!(" {} {} {}", class_code(class_of(&t.kind)), t.span.start, t.span.end));
+    }
+    let r = guarded(|| LongSentences.lint(doc));
+    match r {
+        Ok(ls) if ls.is_empty() => {
+            rep.count("long_sentences_case:no_lint");
+            rep.case(&line, "R -")
+        }
+        Ok(ls) => {
+            rep.count("long_sentences_case:with_lint");
+            if doc.get_tokens().first().map(|t| t.kind.is_whitespace()).unwrap_or(false) {
+                rep.count("long_sentences_case:with_lint_and_leading_whitespace_token");
+            }
+            rep.case(&line, &format!("R {}", ls.iter().map(|l| format!("{} {}", l.span.start, l.span.end)).collect::<Vec<_>>().join(",")))
+        }
+        Err(_) => rep.case(&line, "PANIC"),
+    }
+}
+
+/// texts around the 40-word limit of LongSentences, with and without whitespace in front of a sentence
+fn gen_long_text(r: &mut Rng) -> String {
+    let mut out = String::new();
+    for i in 0..r.range(1, 3) {
+        if i > 0 || r.chance(1, 2) {
+            out.push_str(r.s(&["\n", " ", "\n\n", " \n", "\t", "  ", "\n \n", ""]));
+        }
+        let n = match r.below(4) {
+            0 => r.range(1, 12),
+            1 => 40,
+            2 => 41,
+            _ => r.range(36, 48),
+        };
+        let words: Vec<&str> = (0..n).map(|_| if r.chance(1, 9) { r.s(SHIFTERS) } else { r.s(gen::COMMON) }).collect();
+        out.push_str(&strip_quotes(&words.join(r.s(&[" ", " ", " ", "  ", ", "]))));
+        out.push_str(r.s(&[".", ".", "!", "?", "...", "", ".\n\n", ":"]));
+    }
+    out
 }
 
 // ------------------------------------------------------------------------------------------------
@@ -386,6 +430,13 @@ fn check_tokens(rep: &mut Report, cx: &Ctx, p: &str, d: &str, origin: &str) -> b
         if dw.get_tokens().len() != tp.len() {
             iter_case(rep, tp);
         }
+        long_case(rep, &dw);
+        if d.starts_with('\n') {
+            // the literal D of a seam pair: its document starts with a Newline token
+            if let Ok(dl) = guarded(|| Document::new_plain_english(d, &cx.dict)) {
+                long_case(rep, &dl);
+            }
+        }
     }
     for t in dw.get_tokens() {
         rep.count(&format!("tokkind:{}", class_of(&t.kind)));
@@ -466,6 +517,51 @@ fn lint_relation(cx: &mut Ctx, p: &str, d: &str, tokens_ok: bool) -> Option<((Li
     Some(((lw, lp, ld), verdict))
 }
 
+/// "a..b rest" -> (a, b, rest)
+fn split_canon(c: &str) -> Option<(usize, usize, &str)> {
+    let (span, rest) = c.split_once(' ')?;
+    let (a, b) = span.split_once("..")?;
+    Some((a.parse().ok()?, b.parse().ok()?, rest))
+}
+
+/// The two remaining effects of a cut inside a newline run (finding FC12seam), recognised from the lints that
+/// differ (`only_t` only in lints(P++D), `only_s` only in lints(P) + shift(lints(D)); n = |P|, k = leading
+/// newlines of D):
+///  * break-end: a lint of P that ENDS with P's closing ParagraphBreak (end = n) ends k characters later in
+///    P++D, where the break token also holds D's leading newlines — same start, same everything else;
+///  * UseGenitive: its pattern needs a predecessor token, which D's leading Newline token is when D is checked
+///    alone (every remaining difference is a "Use the genitive case." lint behind the cut).
+/// Anything else (a lint that STARTS elsewhere, another rule) gets no marker.
+fn seam_marker(only_t: &[String], only_s: &[String], n: usize, k: usize) -> String {
+    let mut t: Vec<&String> = only_t.iter().collect();
+    let mut rest_s: Vec<&String> = vec![];
+    let mut break_end = 0;
+    for s in only_s {
+        let hit = split_canon(s).and_then(|(a, b, r)| {
+            if b != n {
+                return None;
+            }
+            t.iter().position(|x| split_canon(x).map(|(a2, b2, r2)| a2 == a && b2 == n + k && r2 == r).unwrap_or(false))
+        });
+        match hit {
+            Some(i) => {
+                t.remove(i);
+                break_end += 1;
+            }
+            None => rest_s.push(s),
+        }
+    }
+    let genitive = |c: &&String| split_canon(c).map(|(a, _, r)| a >= n && r.contains("\"Use the genitive case.\"")).unwrap_or(false);
+    let rest_genitive = t.iter().all(genitive) && rest_s.iter().all(genitive);
+    if t.is_empty() && rest_s.is_empty() && break_end > 0 {
+        " [seam: the only differing lints end with P's closing break, which is longer in P++D]".into()
+    } else if rest_genitive && (!t.is_empty() || !rest_s.is_empty()) {
+        " [seam: besides lints ending with P's closing break, only UseGenitive lints behind the cut differ]".into()
+    } else {
+        String::new()
+    }
+}
+
 fn check_pair(rep: &mut Report, cx: &mut Ctx, p: &str, d: &str, origin: &str) {
     rep.eval();
     if !premise(p) {
@@ -514,8 +610,16 @@ fn check_pair(rep: &mut Report, cx: &mut Ctx, p: &str, d: &str, origin: &str) {
     if let Some(what) = verdict {
         if seam {
             // the literal cut inside the newline run: Document(D) starts with a Newline token that does not
-            // exist in Document(P++D), and P's closing ParagraphBreak is longer there (one root cause)
+            // exist in Document(P++D), and P's closing ParagraphBreak is longer there (one root cause).
+            // What remains of FC12seam after 1bab09f / ff1e7b4 is recognised STRUCTURALLY (seam_marker); any
+            // other difference at the literal cut carries no marker and is reported as a violation.
             rep.monitor("seam:literal_cut_differs", 1);
+            let mut separately = multiset(&lp, 0);
+            separately.extend(multiset(&ld, p.chars().count()));
+            separately.sort();
+            let (only_t, only_s) = msdiff(&together, &separately);
+            let k = d.chars().take_while(|c| *c == '\n').count();
+            let what = format!("{what}{}", seam_marker(&only_t, &only_s, p.chars().count(), k));
             rep.fail("lints_seam", what, pair_json(p, d, origin));
         } else {
             rep.monitor("H_rules_local:violated", 1);
@@ -740,6 +844,58 @@ fn gen_d_seam(r: &mut Rng) -> String {
     format!("{lead}{first}{rest}")
 }
 
+/// D whose FIRST tokens are what a rule treats specially at the start of a chunk / sentence / document — no
+/// leading newline, so the pair is inside the premise of C12_main_partial (seeded change c12-1: a window that
+/// takes its predecessor from the previous paragraph).
+fn gen_d_head(r: &mut Rng) -> String {
+    let lead = r.s(&["", "", "", " ", "  ", "\t"]);
+    let cur = r.s(&["$", "£", "€", "¥", "₹"]);
+    let num = r.s(gen::NUMBERS);
+    let first = match r.below(10) {
+        0..=2 => format!("{num} {cur}"),
+        3 => format!("{cur} {num}"),
+        4 => format!("{num}{cur}"),
+        5 => format!("{num}  {cur}"),
+        6 => r.s(gen::TRIGGERS).to_string(),
+        7 => r.s(gen::CONTRACTIONS).to_string(),
+        8 => format!("{} {}", r.s(&["they're", "there", "its", "it's", "a", "an", "I", "i"]), r.s(gen::COMMON)),
+        _ => r.s(gen::NUMBERS).to_string(),
+    };
+    let rest = match r.below(4) {
+        0 => r.s(&["", ".", " was all it cost.", " is."]).to_string(),
+        1 => format!(" {}", gen::sentence(r)),
+        2 => format!(" was all it cost. {}", gen::clean_sentence(r)),
+        _ => format!(" {}", gen::document(r)),
+    };
+    format!("{lead}{first}{rest}")
+}
+
+/// (P, D) in which ONE clause with a pattern-rule finding occurs twice with a different amount of leading
+/// whitespace: behind another sentence of P and at the very start of D, or the other way round (seeded change
+/// c12-2: a chunk-cache key that ignores the leading whitespace while the cached spans do not).
+fn gen_repeat(r: &mut Rng) -> (String, String) {
+    let trig = r.s(gen::TRIGGERS);
+    let clause = match r.below(4) {
+        0 => format!("We {trig} today."),
+        1 => format!("{} {trig}.", gen::capitalize(r.s(gen::COMMON))),
+        2 => format!("It was {trig} and we could of left earlier."),
+        _ => format!("{}", gen::capitalize(&format!("{trig} {}.", r.s(gen::COMMON)))),
+    };
+    let clause = strip_quotes(&clause);
+    let other = strip_quotes(&gen::clean_sentence(r));
+    let gap = r.s(&[" ", " ", "  ", "\t", " \n"]);
+    let tail = match r.below(3) {
+        0 => String::new(),
+        1 => format!(" {}", gen::sentence(r)),
+        _ => format!("{gap}{clause}"),
+    };
+    if r.chance(2, 3) {
+        (format!("{other}{gap}{clause}\n\n"), format!("{clause}{tail}"))
+    } else {
+        (format!("{clause}\n\n"), format!("{other}{gap}{clause}{tail}"))
+    }
+}
+
 // ------------------------------------------------------------------------------------------------
 fn replay_input(rep: &mut Report, cx: &mut Ctx, v: &Value) {
     let s = |k: &str| v[k].as_str().unwrap_or("").to_string();
@@ -774,7 +930,7 @@ fn synth_case(rep: &mut Report, classes: &[char], zero_width: bool) {
 
 pub fn run(a: &Args, corpus: &[Value]) {
     let mut rep = Report::new(&a.out);
-    rep.rule = "pairs (P, D): P = 1-3 generated sentences (hv::gen vocabulary: triggers, misspellings, numbers, abbreviations) with forced contractions / initialisms / ellipses / number suffixes / URLs / e-mail addresses / multi-byte words at start, middle and end, double quotes removed, closed by . ! ? + blank line; D = generated documents, placed constructs, malformed text, leading newlines, quotes, digits, @, empty and one-character texts. Each pair: token-level relation (lexer, then Document), lint-level multiset relation with all rules on (fresh linters), warm-cache monitor; stream `seam`: D = newline run + number/currency/trigger/contraction/abbreviation + text (relation checked behind the run and at the literal cut); plus edit triples (P,D,P',D'). non-trivial = distinct pair with >=1 lint in P and >=1 lint in D. Correspondence: iterators/hull of the model vs TokenStringExt on the Document tokens of every pair and on synthetic kind sequences".into();
+    rep.rule = "pairs (P, D): P = 1-3 generated sentences (hv::gen vocabulary: triggers, misspellings, numbers, abbreviations) with forced contractions / initialisms / ellipses / number suffixes / URLs / e-mail addresses / multi-byte words at start, middle and end, double quotes removed, closed by . ! ? + blank line; D = generated documents, placed constructs, malformed text, leading newlines, quotes, digits, @, empty and one-character texts. Each pair: token-level relation (lexer, then Document), lint-level multiset relation with all rules on (fresh linters), warm-cache monitor; stream `seam`: D = newline run + number/currency/trigger/contraction/abbreviation + text (relation checked behind the run and at the literal cut); stream `head`: D opens with an amount (number, blank, currency symbol in both orders), a trigger, a contraction or a number, without a leading newline; stream `repeat`: one clause with a pattern-rule finding occurs behind a sentence of P and at the start of D (or vice versa), i.e. twice with different leading whitespace within one LintGroup; plus edit triples (P,D,P',D'). non-trivial = distinct pair with >=1 lint in P and >=1 lint in D. Correspondence: iterators/hull of the model vs TokenStringExt on the Document tokens of every pair and on synthetic kind sequences".into();
     let mut cx = Ctx::new(a.scale(40, 40));
     // the four Unicode facts C12_lex_split rests on (hypotheses of the theorem), on the real `char` methods;
     // is_english_lingual is private: observed through the lexer (a newline is never part of a Word token)
@@ -807,9 +963,26 @@ pub fn run(a: &Args, corpus: &[Value]) {
         let d = gen_d_seam(&mut r);
         check_pair(&mut rep, &mut cx, &p, &d, "seam");
     }
+    for _ in 0..a.scale(120, 2000) {
+        let p = if r.chance(1, 2) { gen_p(&mut r) } else { gen_p_simple(&mut r) };
+        let d = gen_d_head(&mut r);
+        check_pair(&mut rep, &mut cx, &p, &d, "head");
+    }
+    for _ in 0..a.scale(100, 1500) {
+        let (p, d) = gen_repeat(&mut r);
+        check_pair(&mut rep, &mut cx, &p, &d, "repeat");
+    }
     for _ in 0..a.scale(250, 4000) {
         let (p, d, p2, d2) = (gen_p(&mut r), gen_d(&mut r), gen_p(&mut r), gen_d(&mut r));
         check_edit(&mut rep, &mut cx, &p, &d, &p2, &d2, "generated");
+    }
+    // the modelled rule body LongSentences around its limit
+    for _ in 0..a.scale(200, 3000) {
+        let t = gen_long_text(&mut r);
+        if let Ok(doc) = guarded(|| Document::new_plain_english(&t, &cx.dict)) {
+            rep.eval();
+            long_case(&mut rep, &doc);
+        }
     }
     // synthetic kind sequences for the iterator correspondence
     for _ in 0..a.scale(3000, 30000) {
